@@ -120,7 +120,7 @@ def main():
             outp = os.path.join(ctx.run, "reload.jsonl")
             rc, o = sh([rb["realrun"], "-mode", "reload", "-walk", ",".join(rp["reload_walk"]), "-out", outp], cwd=ctx.run, timeout=300)
             rl = [json.loads(l) for l in open(outp)] if rc == 0 else []
-            if [r for r in rl if r.get("kind") == "reload_step" and r["after"] != rp["step"]["expected_after"]]:
+            if [r for r in rl if r.get("kind") == "reload_step" and "still print" in (r.get("what") or "")]:
                 violation(ctx, rp)
             finish(ctx)
         recs = run_defsrun(ctx, bins, rp.get("run_seed", 1), rp.get("n", 0), rp.get("ne", 0), only=rp.get("case_id"))
